@@ -84,9 +84,11 @@ def run(ctx):
     ctx.trusted = ['scipy lsmr returns the minimum-norm least-squares solution when it converges',
                    'np.allclose as the row-space membership test']
     blocks = []
+    from ._generic import aligned_zips
     for rel, q, kind in COPIES:
         fi = repo.nfunc(rel, q)
         ctx.analysed(fi)
+        aligned_zips(ctx, fi, 'same-system')
         if kind == 'block':
             total = fi.params[2]
             ifs = [s for s in fi.body if isinstance(s, ast.If) and is_none_test(s.test, total)]
@@ -460,7 +462,9 @@ def check_features(ctx, fi, block, total):
                     a, b = (t.args + [None, None])[:2]
                     applied = a is not None and T(a) in ('%s.dot(__v__)' % T(op), '%s@__v__' % T(op), '__v__@%s' % Q, '__v__.dot(%s)' % Q,
                                                          'np.dot(%s,__v__)' % T(op))
-                    ctx.ob('same-system', fi, ev_.stmt, applied and b is not None and T(b) == T(rhs),
+                    # the all-ones target may be written as the scalar 1 (numpy broadcasts it against the product)
+                    scalar_one = b is not None and T(b) in ('1', '1.0') and ones
+                    ctx.ob('same-system', fi, ev_.stmt, applied and b is not None and (T(b) == T(rhs) or scalar_one),
                            'the row-space test must apply the solved operator `%s` to the solution and compare with the target `%s`; test `%s`'
                            % (U(op), U(rhs), U(t)), construct='row-space test in ' + where)
                 elif T(conds[0][0]) != T(want_guard):
